@@ -200,6 +200,9 @@ func (ex *Exec) store(p Ptr, v Value, site string) {
 	if p.O != nil && p.O.Frozen {
 		ex.mon.frozenWrite(ex, p.O, site)
 	}
+	if len(ex.mon.frozenObjs) > 0 {
+		ex.res.monitorChecks++
+	}
 	if ex.mon.lockset != nil {
 		ex.mon.access(ex, p.O, p.C, true, site)
 	}
